@@ -263,6 +263,50 @@ fn witness(c: &Case, variant: &str, extra: Value, base: &Bag, got: &Bag) -> Valu
         "rows_with_different_multiplicity_in_baseline": only_base, "rows_with_different_multiplicity_in_variant": only_got})
 }
 
+/// `OUTER . { [pattern] PARTIAL-BINDER-OF-?x FILTER/BIND-on-?x }` in random element orders.
+fn correlation_template(r: &mut Rng, n_ent: usize, n_pred: usize) -> Vec<P> {
+    let e = |r: &mut Rng| T::Const(ds::ent(r.below(n_ent)));
+    let p = |r: &mut Rng| T::Const(ds::pred(r.below(n_pred)));
+    let v = |s: &str| T::Var(s.to_string());
+    let outer = match r.below(3) {
+        0 => P::Bgp(vec![(v("a"), p(r), v("x"))]),
+        1 => P::Bgp(vec![(v("x"), p(r), v("b"))]),
+        _ => P::Values(vec!["x".into()], vec![vec![Some(ds::ent(r.below(n_ent)))], vec![Some(ds::ent(r.below(n_ent)))]]),
+    };
+    let partial = match r.below(4) {
+        0 => P::Union(vec![vec![P::Bgp(vec![(v("a"), p(r), v("x"))])], vec![P::Bgp(vec![(v("a"), p(r), v("y"))])]]),
+        1 => P::Union(vec![vec![P::Bgp(vec![(v("x"), p(r), v("c"))])], vec![]]),
+        2 => P::Values(vec!["x".into()], vec![vec![None], vec![Some(ds::ent(r.below(n_ent)))]]),
+        _ => P::Union(vec![vec![P::Values(vec!["x".into()], vec![vec![Some(ds::ent(r.below(n_ent)))]])], vec![P::Bgp(vec![(v("a"), p(r), v("c"))])]]),
+    };
+    let probe = match r.below(4) {
+        0 => P::Filter(Expr::Cmp("x".into(), "=", e(r))),
+        1 => P::Filter(Expr::Cmp("x".into(), "!=", e(r))),
+        2 => P::Filter(Expr::Or(Box::new(Expr::Cmp("x".into(), "=", e(r))), Box::new(Expr::Cmp("x".into(), "=", e(r))))),
+        _ => P::Bind(vec![BindArg::Str("#".into()), BindArg::Var("x".into())], "cx".into()),
+    };
+    let mut inner: Vec<P> = vec![];
+    if r.coin() {
+        inner.push(P::Bgp(vec![(v("a"), p(r), v("v"))]));
+    }
+    inner.push(partial);
+    // a BIND must come after what it reads; a FILTER may stand anywhere in its group
+    if matches!(probe, P::Filter(_)) {
+        let pos = r.below(inner.len() + 1);
+        inner.insert(pos, probe);
+    } else {
+        inner.push(probe);
+    }
+    if r.chance(1, 3) {
+        inner.push(P::Bgp(vec![(v("a"), p(r), v("w"))]));
+    }
+    if r.coin() {
+        vec![outer, P::Group(inner)]
+    } else {
+        vec![P::Group(inner), outer]
+    }
+}
+
 /// The engine-side dataset view of a query: the database's own dataset, or the FROM /
 /// FROM NAMED replacement (graph names encoded through the database dictionary).
 fn dataset_view(db: &SparqlDatabase, from: &[String], from_named: &[String]) -> DatasetView {
@@ -309,7 +353,17 @@ fn run(ctx: &mut Ctx) {
             g.max_depth = if big { 1 } else { 2 };
             g.max_top = if big { 2 } else { 3 };
             g.max_nested = if big { 1 } else { 2 };
-            let (group, _) = g.gen_group(0, true);
+            let (mut group, _) = g.gen_group(0, true);
+            // 1 query in 6: a template aimed at the bind-join admissibility rule - an outer pattern
+            // that binds ?x next to a nested group whose FILTER / BIND mentions ?x while the
+            // group itself binds ?x only in some of its solutions
+            if qi == 0 && !big {
+                let mut rt = ctx.rng_labeled("template", k);
+                if rt.coin() {
+                    group = correlation_template(&mut rt, vocab.n_ent, vocab.n_pred);
+                    ctx.count("queries_from_correlation_templates", 1);
+                }
+            }
             // 1 query in 3 replaces the dataset: a default graph MERGED from several named graphs
             // (the same triple may sit in more than one of them) and an explicit named-graph set
             let mut from: Vec<String> = vec![];
